@@ -55,6 +55,41 @@ H("G-ORD", "ord_shift_preserves_identity", "C19 C30", "3-actor sorted table, ins
   "renumbered id names the same actor bytes; root object id is a fixed point")
 H("G-ORD", "ord_accessors", "C19 C30", "all u32 x u32 ids", "OpId::new(counter(), actor()) is the identity")
 
+
+# ---------------------------------------------------------------------------------------------
+# G-BLOOM
+group("G-BLOOM", "automerge", "am_sync_bloom.rs", "sync::bloom",
+      ["sync::bloom::BloomFilter::{from_hashes,add_hash,get_probes,set_bit,get_bit,contains_hash,to_bytes,parse,default}",
+       "sync::bloom::bits_capacity", "<BloomFilter as TryFrom<&[u8]>>::try_from", "storage::parse::{leb128_u32,take_n,Input::new}"],
+      stubs=[])
+H("G-BLOOM", "bloom_no_false_negative_1", "C23", "1 entry, any 256-bit hash; unwind 9", "member is found")
+H("G-BLOOM", "bloom_no_false_negative_2", "C23", "2 entries, any two 256-bit hashes; unwind 9", "both members are found")
+H("G-BLOOM", "bloom_no_false_negative_3", "C23", "3 entries, any three hashes; unwind 9", "all members found", tier="thorough")
+H("G-BLOOM", "bloom_wire_roundtrip_1", "C23 C19", "1 entry, any hash; unwind 9", "parse(to_bytes(f)) = f field by field and still contains the member")
+H("G-BLOOM", "bloom_empty_filter", "C23", "empty filter; any query hash", "encodes to nothing, decodes from nothing, contains nothing")
+H("G-BLOOM", "bloom_contains_total_b0_p0", "C23 C15", "any u32 entry count and bits-per-entry, 0 bit byte(s) of any content, probe count 0, any 256-bit hash", "contains_hash never panics; every probe < 8*len", tier="quick")
+H("G-BLOOM", "bloom_contains_total_b0_p1", "C23 C15", "any u32 entry count and bits-per-entry, 0 bit byte(s) of any content, probe count 1, any 256-bit hash", "contains_hash never panics; every probe < 8*len", tier="quick")
+H("G-BLOOM", "bloom_contains_total_b0_p7", "C23 C15", "any u32 entry count and bits-per-entry, 0 bit byte(s) of any content, probe count 7, any 256-bit hash", "contains_hash never panics; every probe < 8*len", tier="quick")
+H("G-BLOOM", "bloom_contains_total_b1_p0", "C23 C15", "any u32 entry count and bits-per-entry, 1 bit byte(s) of any content, probe count 0, any 256-bit hash", "contains_hash never panics; every probe < 8*len", tier="quick")
+H("G-BLOOM", "bloom_contains_total_b1_p1", "C23 C15", "any u32 entry count and bits-per-entry, 1 bit byte(s) of any content, probe count 1, any 256-bit hash", "contains_hash never panics; every probe < 8*len", tier="quick")
+H("G-BLOOM", "bloom_contains_total_b1_p2", "C23 C15", "any u32 entry count and bits-per-entry, 1 bit byte(s) of any content, probe count 2, any 256-bit hash", "contains_hash never panics; every probe < 8*len", tier="thorough")
+H("G-BLOOM", "bloom_contains_total_b1_p7", "C23 C15", "any u32 entry count and bits-per-entry, 1 bit byte(s) of any content, probe count 7, any 256-bit hash", "contains_hash never panics; every probe < 8*len", tier="quick")
+H("G-BLOOM", "bloom_contains_total_b2_p2", "C23 C15", "any u32 entry count and bits-per-entry, 2 bit byte(s) of any content, probe count 2, any 256-bit hash", "contains_hash never panics; every probe < 8*len", tier="quick")
+H("G-BLOOM", "bloom_contains_total_b2_p7", "C23 C15", "any u32 entry count and bits-per-entry, 2 bit byte(s) of any content, probe count 7, any 256-bit hash", "contains_hash never panics; every probe < 8*len", tier="thorough")
+H("G-BLOOM", "bloom_contains_total_b3_p3", "C23 C15", "any u32 entry count and bits-per-entry, 3 bit byte(s) of any content, probe count 3, any 256-bit hash", "contains_hash never panics; every probe < 8*len", tier="thorough")
+H("G-BLOOM", "bloom_contains_total_b3_p7", "C23 C15", "any u32 entry count and bits-per-entry, 3 bit byte(s) of any content, probe count 7, any 256-bit hash", "contains_hash never panics; every probe < 8*len", tier="quick")
+H("G-BLOOM", "bloom_contains_total_b3_p8", "C23 C15", "any u32 entry count and bits-per-entry, 3 bit byte(s) of any content, probe count 8, any 256-bit hash", "contains_hash never panics; every probe < 8*len", tier="thorough")
+H("G-BLOOM", "bloom_parse_total_len3", "C23 C15 C17", "every 3-byte input", "parser total; accepted bits length = ceil(n*b/8) <= input")
+H("G-BLOOM", "bloom_parse_total_len4", "C23 C15 C17", "every 4-byte input", "parser total; accepted bits length consistent")
+H("G-BLOOM", "bloom_parse_total_len5", "C23 C15 C17", "every 5-byte input", "parser total", tier="thorough")
+H("G-BLOOM", "bloom_parse_total_len6", "C23 C15 C17", "every 6-byte input", "parser total", tier="thorough")
+H("G-BLOOM", "bloom_probe_budget_b1", "C17 C23", "1 bit byte, ANY u32 probe count / entries / bits-per-entry, any hash; unwind 10 = 8*len+2 is the step budget",
+  "get_probes allocates and iterates at most 8*len times whatever probe count the wire claims", unwind_is_budget=True)
+H("G-BLOOM", "bloom_probe_budget_b2", "C17 C23", "2 bit bytes, any u32 probe count; unwind 18 = 8*len+2 is the step budget",
+  "as above", unwind_is_budget=True, tier="thorough")
+H("G-BLOOM", "bloom_decode_then_query_e1_b0", "C23 C15 C37", "wire bytes [1, 0, p] for every p < 128, any query hash; BloomFilter::parse (the body of TryFrom<&[u8]>) + contains_hash",
+  "decode then query never panics (the former remainder-by-zero input)")
+
 # ---------------------------------------------------------------------------------------------
 PROPS["C01"] = {
     "decided": "the id order every replica uses to pick winners and sibling order is one strict total order (Lamport counter, "
@@ -78,3 +113,10 @@ PROPS["C30"] = {
 }
 
 SETUP_HARNESS = {"automerge": "types::verif_kani::ord_accessors"}
+
+PROPS["C23"] = {
+    "decided": "no false negatives for 1-3 entries over all 256-bit hashes, also after encode/decode; contains_hash is total on every "
+               "filter the decoder can produce (bit array <= 3 bytes, probes <= 8); the decoder is total on all inputs of 3-6 bytes",
+    "outside": ["filters with thousands of entries (the probe arithmetic is per hash; u32 overflow of 8*bits.len() at 512 MiB filters is not covered)",
+                "probe counts above 8 (see C17)"],
+}
